@@ -64,6 +64,9 @@ type Case struct {
 	Mid    string `json:"mid,omitempty"`
 	// Builds (mode seq): a history of rawTx builds on ONE long-lived Executor
 	Builds []Build `json:"builds,omitempty"`
+	// Dels (mode dup): deliveries with duplicate / overlapping proposals; Bridges: bridge key per resource
+	Dels    [][]DProp `json:"dels,omitempty"`
+	Bridges []string  `json:"bridges,omitempty"`
 }
 
 type In struct {
@@ -91,6 +94,8 @@ type Obs struct {
 	ERuns [][]EGroup `json:"eruns,omitempty"`
 	// mode seq: per build [the long-lived Executor's run, a fresh Executor's run]
 	BRuns [][]Res `json:"bruns,omitempty"`
+	// mode dup: per run the transactions built / under construction
+	DRuns [][]DTx `json:"druns,omitempty"`
 }
 
 // ---- the fake mempool service ---------------------------------------------------------------
@@ -105,6 +110,8 @@ type service struct {
 	utxoFail  string
 	feeFailAt int
 	feeCalls  int
+	// also (mode dup): further bridge addresses that hold the same listing
+	also map[string]bool
 }
 
 func (s *service) ServeHTTP(w http.ResponseWriter, r *http.Request) {
@@ -119,7 +126,8 @@ func (s *service) ServeHTTP(w http.ResponseWriter, r *http.Request) {
 		}
 		fmt.Fprintf(w, `{"fastestFee":%d,"halfHourFee":%d,"hourFee":%d,"economyFee":%d,"minimumFee":1}`,
 			s.rate+20, s.rate+10, s.rate+5, s.rate)
-	case r.URL.Path == "/api/address/"+s.addr+"/utxo":
+	case r.URL.Path == "/api/address/"+s.addr+"/utxo" ||
+		s.also[strings.TrimSuffix(strings.TrimPrefix(r.URL.Path, "/api/address/"), "/utxo")]:
 		switch s.utxoFail {
 		case "http500":
 			http.Error(w, "internal error", http.StatusInternalServerError)
@@ -233,6 +241,9 @@ func run(c Case) Obs {
 	}
 	if c.Mode == "seq" {
 		return runSeq(c)
+	}
+	if c.Mode == "dup" {
+		return runDup(c)
 	}
 	par := params(c.Net)
 	bridgeAddr := must(btcutil.NewAddressTaproot(must(hex.DecodeString(c.Bridge)), par))
@@ -627,6 +638,7 @@ func gen(r *vgen.Rng, tier string) []Case {
 	// sets of round 4 are spread between them, so that no shard gets much heavier than the others
 	tail := append(genMsg(r, tier), genExec(r, tier)...)
 	tail = spread(tail, genSeq(r, tier))
+	tail = spread(tail, genDup(r, tier))
 	// large sets cost mostly parsing time (proportional to their size): evenly over all shards
 	return spread(append(out, tail...), genBig(r, tier))
 }
@@ -717,6 +729,9 @@ func coq(c Case, o Obs) string {
 	if c.Mode == "seq" {
 		return coqSeq(c, o)
 	}
+	if c.Mode == "dup" {
+		return coqDup(c, o)
+	}
 	if c.Mode == "big" {
 		return "BigCase " + vgen.ListOf(c.Props, coqProp) + "\n    " + vgen.ListOf(c.Utxos, coqUtxo) + "\n    " +
 			zu(c.Rate) + " " + pack(must(hex.DecodeString(c.Bridge))) + " " + pack([]byte(c.Cid)) + " " +
@@ -750,9 +765,16 @@ func main() {
 			if c.Mode == "seq" {
 				return len(c.Builds) >= 2
 			}
+			if c.Mode == "dup" {
+				n := 0
+				for _, d := range c.Dels {
+					n += len(d)
+				}
+				return n >= 2
+			}
 			return len(c.Props) > 0 && len(c.Utxos) > 0
 		},
 		ShardSize: 100,
-		Rule:      "1..5 proposals (all six recipient classes, accepted other-network segwit prefixes, invalid recipients), 0..10 UTXOs with equal block times / several outputs of one transaction, bridge totals aimed at out, out+fee_estimate, out+fee(k), out+fee(n), out+fee(1) each -2..+2 and random slack, fee rates around the rounding steps 0..500, every listing order for n<=3 (n<=4 for tie cases) else identity+reverse+2 shuffles; failing uploader, over-long CID, malformed and non-canonical txids; message level: 1..4 deposit messages through the real FungibleMessageHandler with amounts around 2^64 base units (+-2, x2..x5, powers of two 2^60..2^80), around multiples of 10^10 (remainders), up to the 21e14-satoshi supply x 10^10 and beyond 2^64 x 10^10, then rawTx as above; Execute level: every assignment of 2..4 proposals to three resources spanning at least two + random deliveries of up to 10 proposals over 2..4 resources, each through the real Executor.Execute under four schedules; histories (seq): 2..5 rawTx builds on ONE long-lived Executor (one mempool client, one uploader) with the fee rate and the UTXO set changing between builds and failing builds of every kind in between (bridge short of funds, empty set, UTXO service HTTP 500 / unparsable answer, malformed txid, invalid recipient, failing uploader, over-long CID, fee service failing at its first / second request), each build repeated on a fresh Executor; size boundaries (big): UTXO sets of 64/65/100/101/255/256/257/499/500/501/777/1000/1001/2000 entries with distinct values served oldest first / newest first / rotated, a set whose selection needs 65 inputs (257, 501 in the thorough tier), and transactions for 1/2/17/50/101/200/257 proposals; distinct = distinct input JSON; non-trivial = at least one proposal and one UTXO (Execute level: at least two resources)",
+		Rule:      "1..5 proposals (all six recipient classes, accepted other-network segwit prefixes, invalid recipients), 0..10 UTXOs with equal block times / several outputs of one transaction, bridge totals aimed at out, out+fee_estimate, out+fee(k), out+fee(n), out+fee(1) each -2..+2 and random slack, fee rates around the rounding steps 0..500, every listing order for n<=3 (n<=4 for tie cases) else identity+reverse+2 shuffles; failing uploader, over-long CID, malformed and non-canonical txids; message level: 1..4 deposit messages through the real FungibleMessageHandler with amounts around 2^64 base units (+-2, x2..x5, powers of two 2^60..2^80), around multiples of 10^10 (remainders), up to the 21e14-satoshi supply x 10^10 and beyond 2^64 x 10^10, then rawTx as above; Execute level: every assignment of 2..4 proposals to three resources spanning at least two + random deliveries of up to 10 proposals over 2..4 resources, each through the real Executor.Execute under four schedules; histories (seq): 2..5 rawTx builds on ONE long-lived Executor (one mempool client, one uploader) with the fee rate and the UTXO set changing between builds and failing builds of every kind in between (bridge short of funds, empty set, UTXO service HTTP 500 / unparsable answer, malformed txid, invalid recipient, failing uploader, over-long CID, fee service failing at its first / second request), each build repeated on a fresh Executor; size boundaries (big): UTXO sets of 64/65/100/101/255/256/257/499/500/501/777/1000/1001/2000 entries with distinct values served oldest first / newest first / rotated, a set whose selection needs 65 inputs (257, 501 in the thorough tier), and transactions for 1/2/17/50/101/200/257 proposals; duplicates (dup): one delivery with every duplicate pattern of 1..4 entries (a sample of those of 5; longer ones with the whole batch delivered twice, copies first/last/three times) over proposals that are copies of one deposit or NEAR-duplicates (same nonce from another source, neighbouring / bit-flipped nonces, same amount and recipient) through the real Execute (two schedules) and through proposalsForExecution + rawTx, and 2-3 overlapping deliveries handed concurrently to one Executor, all over the real PropStore; distinct = distinct input JSON; non-trivial = at least one proposal and one UTXO (Execute level: at least two resources)",
 	})
 }
